@@ -1,7 +1,7 @@
 (* Properties/C01.v — Acknowledged object writes are read back exactly (M-META, Model/Meta.v).
    Statements + exact-lemma proofs + Print Assumptions only. *)
 From Verif Require Import Bytes Codec Md5 Meta MetaBasics MetaWitness.
-From Verif Require Import MetaRows1 MetaRows2 MetaRows3 MetaRows4 MetaRows5 MetaRows6 MetaRows7 MetaRows8 MetaRows9.
+From Verif Require Import MetaRows1 MetaRows2 MetaRows3 MetaRows4 MetaRows5 MetaRows6 MetaRows7 MetaRows8 MetaRows9 MetaRows10.
 
 (* every reachable state satisfies the database's unique indexes: at most one completed is_latest row per
    (bucket,key), version ids unique per key, part sequence numbers unique per object — for ALL histories *)
@@ -108,6 +108,23 @@ Theorem C01_append_read_your_write_history : forall ops b k c off s' rs e sz,
 Proof. exact run_append_read_your_write. Qed.
 Print Assumptions C01_append_read_your_write_history.
 
+(* CompleteMultipartUpload, from any state with unique row ids: the acknowledged version id and multipart ETag
+   are what HEAD by key and HEAD by that version id return *)
+Theorem C01_complete_read_your_write : forall i hist s b k u m cr s' v e,
+  NoDup (map o_id (objs s)) -> (forall x, In x (objs s) -> (o_id x < next_id s)%N) ->
+  step i hist s (OCpl b k u m cr) = (s', RPut v e) ->
+  exists sz lm ct,
+  op_head s' b k None = RObj v e sz lm ct None /\ op_head s' b k (Some v) = RObj v e sz lm ct None.
+Proof. exact complete_read_your_write. Qed.
+Print Assumptions C01_complete_read_your_write.
+
+Theorem C01_complete_read_your_write_history : forall ops b k u m cr s' rs v e,
+  run (ops ++ [OCpl b k u m cr]) = (s', rs ++ [RPut v e]) ->
+  exists sz lm ct,
+  op_head s' b k None = RObj v e sz lm ct None /\ op_head s' b k (Some v) = RObj v e sz lm ct None.
+Proof. exact run_complete_read_your_write. Qed.
+Print Assumptions C01_complete_read_your_write_history.
+
 (* FRAME: an operation not addressed to (b,k) — any bucket operation, any read, any write/delete/multipart
    call on another key, a copy to another destination — leaves the rows of (b,k) (in table order), hence what
    lookups by key / version id / upload id find, and the part rows of those rows, unchanged *)
@@ -155,4 +172,8 @@ Proof. eexists. vm_compute. reflexivity. Qed.
 Example C01_ex_append_ack : exists s',
   run ([OMb wb; OPut wb wk cA CRNone] ++ [OApp wb wk cB None]) =
   (s', [ROk; RPut VNull (mk_md5 cA)] ++ [RAppend (mk_multi [cA; cB]) 16%Z]).
+Proof. eexists. vm_compute. reflexivity. Qed.
+Example C01_ex_complete_ack : exists s',
+  run ([OMb wb; OVer wb VEnabled; OCmu wb wk; OUp wb wk 2 1 cA; OUp wb wk 2 2 cB] ++ [OCpl wb wk 2 None CRNone]) =
+  (s', [ROk; ROk; RUpload 2; REtag (mk_md5 cA); REtag (mk_md5 cB)] ++ [RPut (VId 5) (mk_multi [cA; cB])]).
 Proof. eexists. vm_compute. reflexivity. Qed.
